@@ -203,6 +203,30 @@ def spec_view(e):
 # ------------------------------------------------------------------------------------------------
 # the implementation
 
+# Include specs.  A model label n stands for the spec name SPEC_NAMES[n] (n < 24) or 'zz_<n>'.  The table is sorted,
+# so the order of spec strings (Python sorts include paths as tuples of strings) is the numeric order of the labels
+# (the model sorts lists of numbers); and it is full of names that are *textual* prefixes of one another
+# ('inc' / 'inc2' / 'inc_x', 'includeme' / 'includeme_admin', 'a' / 'a/b' / 'ab'), because include chains must be
+# compared spec by spec, never as joined text.
+SPEC_NAMES = sorted(['a', 'a/b', 'ab', 'abc', 'b', 'inc', 'inc2', 'inc2_sub', 'inc_x', 'includeme', 'includeme2',
+                     'includeme_admin', 'includeme_admin_x', 'm', 'm2', 'm_a', 'main', 'main_app', 'sub', 'sub2',
+                     'sub_a', 'x', 'x1', 'x_'])
+assert len(set(SPEC_NAMES)) == 24 and all(n < 'zz_' for n in SPEC_NAMES)
+_SPEC_LABEL = {n: i for i, n in enumerate(SPEC_NAMES)}
+# groups of labels whose names are textual prefixes of the group's first name's extensions
+SPEC_FAMILIES = [[i for i, n in enumerate(SPEC_NAMES) if n.startswith(root)] for root in ('a', 'inc', 'includeme', 'm', 'sub', 'x')]
+
+
+
+def spec_name(n):
+    return SPEC_NAMES[n] if n < len(SPEC_NAMES) else 'zz_%03d' % n
+
+
+def spec_label(spec):
+    name = spec.split(':', 1)[1]
+    return _SPEC_LABEL[name] if name in _SPEC_LABEL else int(name[3:])
+
+
 def _dname(v):
     return None if v is None else 'd%d' % v
 
@@ -271,7 +295,7 @@ def impl_state(case):
             for k in n['adds']:
                 declare(k)
         st.action(_mk_disc(n, log, evals), call if call_of(n) == 'fn' else None, order=n['order'],
-                  includepath=tuple('vf:inc_%03d' % x for x in n['path']), info='action %d' % n['id'],
+                  includepath=tuple('vf:' + spec_name(x) for x in n['path']), info='action %d' % n['id'],
                   introspectables=(_Intr(log, n['id']),) if call_of(n) == 'intr' else ())
 
     for n in case['top']:
@@ -319,7 +343,7 @@ def impl_config(case, full=False):
             cfgs[path] = c
             if body:
                 body(c)
-        inc.__name__ = inc.__qualname__ = 'inc_%03d' % path[-1]
+        inc.__name__ = inc.__qualname__ = spec_name(path[-1])
         inc.__module__ = __name__
         parent.include(inc)
         if path not in cfgs:
@@ -330,7 +354,7 @@ def impl_config(case, full=False):
         def call(n=n):
             log.append(n['id'])
             declare_list(n['adds'])
-        got = tuple(int(s.rsplit('_', 1)[1]) for s in cfg.includepath)
+        got = tuple(spec_label(s) for s in cfg.includepath)
         paths_seen[n['id']] = got
         cfg.action(_mk_disc(n, log, evals), call if call_of(n) == 'fn' else None, order=n['order'],
                    introspectables=(_Intr(log, n['id']),) if call_of(n) == 'intr' else ())
@@ -451,7 +475,10 @@ def impl_program(case):
     seg = {'top': [], 'during': {}, 'stack': []}       # what was declared since the last commit, and by whom
     config = Configurator(registry=Registry('vf_c04p'), package=sys.modules[__name__], autocommit=auto)
 
-    def labels(strs, sep=None):
+    def labels(strs):
+        return [spec_label(x) for x in strs]
+
+    def rp_labels(strs):
         return [int(x.rsplit('_', 1)[1]) for x in strs]
 
     def run_stmts(cfg, stmts):
@@ -465,7 +492,7 @@ def impl_program(case):
                     finally:
                         seg['stack'].pop()
                 rp = cfg.route_prefix
-                declared.append([s['id'], labels(cfg.includepath), labels(rp.split('/')) if rp else []])
+                declared.append([s['id'], labels(cfg.includepath), rp_labels(rp.split('/')) if rp else []])
                 if seg['stack']:
                     seg['during'].setdefault(seg['stack'][-1], []).append(s['id'])
                 else:
@@ -475,7 +502,7 @@ def impl_program(case):
             elif s['op'] == 'include':
                 def inc(c, s=s):
                     run_stmts(c, s['body'])
-                inc.__name__ = inc.__qualname__ = 'inc_%03d' % s['spec']
+                inc.__name__ = inc.__qualname__ = spec_name(s['spec'])
                 inc.__module__ = __name__
                 cfg.include(inc, route_prefix=None if s['rp'] is None else 'rp_%03d' % s['rp'])
             else:
@@ -645,6 +672,7 @@ def compare_model_program(case, got, mo):
 def gen_program(rng):
     auto = rng.random() < 0.12
     nspec = rng.choice([2, 3, 3, 4, 5])
+    specs = (rng.choice(SPEC_FAMILIES) * 2)[:nspec] if rng.random() < 0.8 else list(range(1, nspec + 1))
     phases = rng.choice([[0], [0], [0, 10], [-10, 0], [0, 10], [-10, 0, 10]])
     ndisc = rng.choice([1, 2, 2, 3])
     pnone = rng.choice([0.15, 0.3, 0.5])
@@ -683,7 +711,7 @@ def gen_program(rng):
                 out.append({'op': 'commit'})
             elif r < pcommit + 0.3 and depth < 4:
                 budget[0] -= 1
-                out.append({'op': 'include', 'spec': rng.randint(1, nspec), 'rp': rng.choice([None, None, rng.randint(1, 3)]),
+                out.append({'op': 'include', 'spec': rng.choice(specs), 'rp': rng.choice([None, None, rng.randint(1, 3)]),
                             'body': stmts(depth + 1, in_body, min_phase, rng.choice([1, 2, 2, 3]))})
             else:
                 out.append(declare(depth, in_body, min_phase))
@@ -781,13 +809,17 @@ def compare_model(case, got, mo):
 def gen_tree(rng, unique_labels):
     """include tree as a list of paths (root first)"""
     n = rng.choice([1, 2, 3, 3, 4, 4, 5, 6])
+    fam = rng.choice(SPEC_FAMILIES)            # specs that are textual prefixes of one another
     paths = [[]]
     for k in range(1, n):
         parent = rng.choice(paths) if rng.random() < 0.6 else paths[-1]
         if unique_labels:
-            lab = k if rng.random() < 0.5 else 100 - k
+            free = [x for x in fam if all(x not in q for q in paths)]
+            lab = rng.choice(free) if free and rng.random() < 0.75 else (k if rng.random() < 0.5 else 100 - k)
+            if any(lab in q for q in paths):
+                lab = 100 - k
         else:
-            lab = rng.choice([1, 2, 3, 11, 20])
+            lab = rng.choice(fam) if rng.random() < 0.8 else rng.choice([1, 2, 3, 11, 20])
         p = parent + [lab]
         if p not in paths:
             paths.append(p)
@@ -806,7 +838,7 @@ def gen_marker_case(rng):
     """a marker (no callable) resolved first, and a second action with its discriminator reaching resolution later:
     in a later phase, or appended by an executing action of the same or a later phase; include paths equal,
     deeper, shallower or unrelated"""
-    paths = [[], [1], [1, 2], [3]]
+    paths = [[], [_SPEC_LABEL['inc']], [_SPEC_LABEL['inc'], _SPEC_LABEL['sub']], [_SPEC_LABEL['inc2']]]
     p0 = rng.choice(paths)
     p1 = rng.choice(paths)
     o0 = rng.choice([-10, 0])
@@ -894,6 +926,20 @@ def gen_case(rng, via=None):
     return case
 
 
+def _textual_prefix_pair(nds):
+    """two actions with the same plain discriminator whose include chains diverge although one chain, joined into
+    one string, is a textual prefix of the other (what a character-wise comparison would take for nesting)"""
+    for x in nds:
+        for y in nds:
+            if x is not y and x['disc'] is not None and x['disc'] == y['disc']:
+                px, py = x['path'], y['path']
+                if py[:len(px)] != px:
+                    jx, jy = '/'.join(map(spec_name, px)), '/'.join(map(spec_name, py))
+                    if jx != jy and jy.startswith(jx):
+                        return True
+    return False
+
+
 def nontrivial(case):
     discs = {}
     for n in walk(case['top']):
@@ -918,7 +964,7 @@ def unknown_violation(case):
 
 # ------------------------------------------------------------------------------------------------
 
-SCOPE_PATHS = [[], [1], [1, 2], [3]]
+SCOPE_PATHS = [[], [_SPEC_LABEL['inc']], [_SPEC_LABEL['inc'], _SPEC_LABEL['sub']], [_SPEC_LABEL['inc2']]]      # 'inc2' is a sibling of 'inc', not below it
 SCOPE_ATOMS = [(d, o, p) for d in (None, 1, 2) for o in (0, 10) for p in range(4)]
 
 
@@ -956,7 +1002,7 @@ def run(ctx):
     seen, nontriv = set(), set()
     dist = {'via': {}, 'outcome': {}, 'declared_actions': {}, 'phases_used': {}, 'with_adds': 0, 'with_deferred': 0,
             'shared_discriminator': 0, 'overridden_some': 0, 'executed_len': {}, 'static_spec_checked': 0,
-            'late_siblings_discarded': 0, 'without_callable': 0, 'marker_then_same_disc_later': 0, 'include_depth_max': {}, 'full_configurator': 0, 'conflict_key_count': {},
+            'late_siblings_discarded': 0, 'textual_prefix_divergent_chains': 0, 'without_callable': 0, 'marker_then_same_disc_later': 0, 'include_depth_max': {}, 'full_configurator': 0, 'conflict_key_count': {},
             'program': {'autocommit': 0, 'commits': {}, 'reincluded_spec': 0, 'include_in_action_body': 0, 'aborted': 0,
                         'commit_outcomes': {}, 'declared': {}, 'with_route_prefix': 0, 'nesting_max': {}}}
     for case, mo in zip(cases, model):
@@ -1006,6 +1052,7 @@ def run(ctx):
             vfutil.bump(dist['conflict_key_count'], len(got['keys']))
         if any(x['adds'] for x in nds): dist['with_adds'] += 1
         if any('call' in x for x in nds): dist['without_callable'] += 1
+        if _textual_prefix_pair(nds): dist['textual_prefix_divergent_chains'] += 1
         if any('call' in x and x['disc'] is not None and any(y is not x and y['disc'] == x['disc'] and 'call' not in y and
                (y['order'] > x['order'] or y in [k for z in nds for k in z['adds']]) for y in nds) for x in nds):
             dist['marker_then_same_disc_later'] += 1
